@@ -23,7 +23,7 @@ META = {
         "ptera.probe.Probe.__init__/_emit",
     ],
     "bounds": {"quick": {"population": 10, "calls": "<= 2 (symbolic receivers)", "argument": "unbounded Int"},
-               "thorough": {"population": 10, "calls": "<= 4", "argument": "unbounded Int"}},
+               "thorough": {"population": 10, "calls": "<= 3", "argument": "unbounded Int"}},
     "out_of_scope": ["receivers whose __eq__ raises", "classmethods/staticmethods", "populations other than the eight receivers"],
     "assumptions": ["transform executed natively", "probe activation executed natively (concrete data)"],
 }
@@ -251,7 +251,7 @@ def build(case):
 
 def cases(tier, seed):
     th = tier == "thorough"
-    nc = 4 if th else 2
+    nc = 3 if th else 2
     cs = []
     for form in ("class", "this_class", "dotted", "wrapped_class", "wrapped_instance", "property"):
         cs.append({"id": form, "params": {"form": form, "ncalls": min(nc, 3)}, "budget_s": 3000 if th else 200})
